@@ -182,6 +182,7 @@ def assemble(prop, tier, seed, unit_results, fn_results, wall):
     solver_s = 0.0
     out_of_reach = []
     vacuity = []
+    canary_counts = {}
     xc = {"units_compared": 0, "runs_compared": 0, "contract_evaluations": 0, "skipped": {}, "disagreements": []}
     for u in unit_results:
         tag = f"{u['contract']}[{u['case']}]"
@@ -218,6 +219,7 @@ def assemble(prop, tier, seed, unit_results, fn_results, wall):
         functions.update(u["functions"])
         dropped.update(u["dropped"])
         solver_s += u["solver_seconds"]
+        canary_counts[u["canary"] or "none"] = canary_counts.get(u["canary"] or "none", 0) + 1
         if u["canary"] == "discharged":
             machinery_errors.append(f"{tag}: canary obligation (False) was discharged: path condition is vacuous")
         elif u["canary"] not in ("refuted", "lemma"):
@@ -327,5 +329,5 @@ def assemble(prop, tier, seed, unit_results, fn_results, wall):
         "violations": violations, "new_violations": new_violations, "known_hits": [h["id"] for h, _ in known_hits],
         "undecided": undecided, "out_of_reach": out_of_reach, "machinery_errors": machinery_errors,
         "functions": functions, "dropped": sorted(dropped), "solver_s": solver_s, "fd_domains": fd_domains,
-        "bounded": bnd_reports, "lines": lines, "vacuity_notes": vacuity, "crosscheck": xc,
+        "bounded": bnd_reports, "lines": lines, "vacuity_notes": vacuity, "crosscheck": xc, "canaries": canary_counts,
     }
